@@ -209,7 +209,8 @@ func main() {
 		Evaluations:        r.Get("twin_pairs") + r.Get("scratch_sequences"),
 		DistinctNontrivial: int64(r.DistinctCount("twin_nontrivial") + r.DistinctCount("scratch_nontrivial")),
 		Rule: "(a) twins: systematic frame-kind x failure-mode x action programs (failing frame at nesting depth 1-2) plus seeded random trees (nesting depth 1-4, any success/failure pattern, " +
-			"actions SSTORE new/overwrite/clear, LOG0-4, TSTORE, value CALL to existing/fresh account, CREATE/CREATE2, SELFDESTRUCT, STAKE, UNSTAKE, AUTHCALL, in-EVM probes); A = program, B = same deployed code with every outermost dead " +
+			"actions SSTORE new/overwrite/clear, LOG0-4, TSTORE, value CALL to existing/fresh account, CREATE/CREATE2, SELFDESTRUCT, STAKE, UNSTAKE, UNSTAKEALL, AUTHCALL, in-EVM probes, " +
+			"re-entering / re-funding an account that self-destructed earlier; creations also fail by returning oversize code or by running out of gas while storing code; programs are one top-level call, one top-level creation, or a sequence of top-level calls on one state object); A = program, B = same deployed code with every outermost dead " +
 			"(failing or static) frame skipping its body, selected through the block context so that code and pre-state are identical; B0 = B with the dead CALL/CALLCODE/DELEGATECALL/STATICCALL frames (systematic programs: every kind, creator/authority nonce exempted) not entered at all, " +
 			"compared with B to catch residue of the frame entry itself (value transfer, account creation); a failing top-level call is compared with the untouched pre-state; non-trivial = at least one dead frame whose revived control run differs from B; " +
 			"table cells counted only when the failing-frame trace observed at the frame hook equals the planned one. " +
